@@ -61,6 +61,11 @@ package p2p
 //@   loop 1 invariant[suffix] len(data) > 0 ==> data == old(data)[n:]
 //@   loop 1 invariant[size] dataSize == len(data)
 //@   callsite Seal requires[frame] chunkSize <= crypto.MaxDataSize && chunkSize == len(chunk) && chunk == old(data)[n:n+chunkSize]
+// frames must reach the wire in the order their nonces were taken (the receiver opens frame k with nonce k): sealing
+// and the network write of the sealed frame happen under the send lock, in ONE critical section. This is a sequential
+// lock-discipline obligation (the lock is held at both call sites); it does not explore schedules.
+//@   callsite Seal requires[sealordered] mutexHeld(&c.send.Mutex)
+//@   callsite Write requires[wireordered] c.send.aead != nil ==> mutexHeld(&c.send.Mutex)
 //@   ensures[all] isnil(err) && old(c.send.aead) != nil ==> n == old(len(data))
 // Read never hands out more than one decrypted chunk, never more than the buffer holds, delivers nothing
 // when the frame does not open (and then leaves the nonce alone), rejects a length header above
@@ -94,3 +99,12 @@ package p2p
 //@   callsite SharedSecret requires[ephemeral] !isnil(tempPrivateKey) && fresh(tempPrivateKey)
 //@   callsite PeerMeta).Copy requires[identified] !isnil(peerPublicKey) && keyBytes(peerPublicKey) == bytes(peerSig.PublicKey) && sigVerifies(keyBytes(peerPublicKey), bytes(challenge[0:32]), bytes(peerSig.Signature))
 //@   ensures[compatible] isnil(e) ==> encryptedConn != nil && encryptedConn.Address != nil && encryptedConn.Address.PeerMeta != nil && encryptedConn.Address.PeerMeta.NetworkId == meta.NetworkId && encryptedConn.Address.PeerMeta.ChainId == meta.ChainId
+
+// ---- C18: a peer is registered under the key it PROVED in the handshake ---------------------------------------------
+// The PeerInfo stored in the peer set is also what every message received on the connection is attributed to
+// (MultiConn.peerInfo -> handlePacket's Sender). When AddPeer files the peer (peer set, forced replacement)
+// the identity in that PeerInfo is the public key authenticated by the handshake of THIS connection - not the key the
+// dialer expected (a non-strict dial keeps going when the two differ).
+//@ func (*P2P).AddPeer
+//@   callsite (*p2p.PeerSet).Add requires[authenticated] info.Address != nil && connection.Address != nil && info.Address.PublicKey == connection.Address.PublicKey && newPeer.PeerInfo == info && newPeer.conn == connection
+//@   callsite AddForce requires[authenticated] info.Address != nil && connection.Address != nil && info.Address.PublicKey == connection.Address.PublicKey && newPeer.PeerInfo == info && newPeer.conn == connection
